@@ -281,6 +281,35 @@ def parse_immutable(path):
         return ImmutableRaw(f.read())
 
 
+class ImmutableTail(object):
+    """Same layout facts as ImmutableRaw for files too large to read whole
+    (multi-GiB sparse shares): header, file size, and the lease records, which
+    by the documented layout are the last 72*count bytes of the file.
+    ``tail`` holds the last ``keep`` bytes for substring scans."""
+
+    def __init__(self, path, keep=8192):
+        self.filesize = os.path.getsize(path)
+        with open(path, "rb") as f:
+            head = f.read(12)
+            self.version = int.from_bytes(head[0:4], "big")
+            self.length_field = int.from_bytes(head[4:8], "big")
+            self.num_leases = int.from_bytes(head[8:12], "big")
+            n = min(self.num_leases, max(0, (self.filesize - 12) // 72))
+            self.lease_offset = self.filesize - 72 * self.num_leases
+            self.data_length = self.lease_offset - 12
+            f.seek(max(0, self.filesize - max(keep, 72 * n)))
+            self.tail = f.read()
+        self.head = head
+        self.leases = []
+        recs = self.tail[len(self.tail) - 72 * n:] if n else b""
+        for i in range(n):
+            rec = recs[72 * i:72 * (i + 1)]
+            self.leases.append({
+                "owner": int.from_bytes(rec[0:4], "big"),
+                "renew": rec[4:36], "cancel": rec[36:68],
+                "expiry": int.from_bytes(rec[68:72], "big")})
+
+
 # storage/mutable.py header comment:
 #  0 magic(32) | 32 nodeid(20) | 52 write enabler(32) | 84 data size(8) |
 #  92 offset of extra-lease count(8) | 100 four leases of 92 bytes
